@@ -62,6 +62,28 @@ def _contains(root, node):
     return any(n is node for n in ast.walk(root))
 
 
+def _inside_comprehension_body(node, fn_node):
+    """Is `node` evaluated per element of an enclosing comprehension (in its
+    element expression, a condition, or an inner generator) rather than
+    once as its outermost iterable?"""
+    cur = node
+    while cur is not None and cur is not fn_node:
+        p = getattr(cur, '_parent', None)
+        if isinstance(p, ast.comprehension):
+            comp = getattr(p, '_parent', None)
+            first = comp.generators[0] if comp is not None else None
+            if not (p is first and cur is p.iter):
+                return True
+            cur = comp
+            continue
+        if isinstance(p, (ast.ListComp, ast.SetComp, ast.DictComp,
+                          ast.GeneratorExp)):
+            if cur is not p.generators[0]:
+                return True      # elt / key / value
+        cur = p
+    return False
+
+
 def analyse(repo, cons, fi, pname, deep=False):
     """-> (events, violations) for parameter pname of fi."""
     uses = cons.uses(fi, pname)
@@ -104,6 +126,12 @@ def analyse(repo, cons, fi, pname, deep=False):
             continue
         once = once_flag_guarded(u.node, fi.node)
         events.append((cn, u.mode + ' ' + u.detail, u.node, once))
+        if _inside_comprehension_body(u.node, fi.node):
+            # evaluated once per element of a comprehension: as good as
+            # inside a loop
+            events.append((cn, u.mode + ' ' + u.detail + ' (again, for the '
+                           'next element of the comprehension)', u.node,
+                           once))
     for alias, (cn, u) in cursor_groups.items():
         # locate the `alias = iter(p)` statement
         for s in model.walk_shallow(fi.node):
